@@ -387,6 +387,7 @@ func genCase(t *rapid.T) gsim.Case {
 		Quiesce:       true,
 	}
 	c.MultiTopic = c.Topics > 1 && rapid.Bool().Draw(t, "multiTopic")
+	c.MaxBytes = rapid.SampledFrom([]int{0, 0, 0, 200, 400, 900}).Draw(t, "maxBytes")
 	mixStratum := rapid.IntRange(0, 5).Draw(t, "mixStratum") == 0
 	if mixStratum {
 		// one CommitMessages call carrying messages of two topics in alternating order
@@ -409,6 +410,22 @@ func genCase(t *rapid.T) gsim.Case {
 		c.Steps = append(c.Steps, gsim.Step{Op: "append", Topic: 0, Part: 0, N: 6}, gsim.Step{Op: "append", Topic: 1, Part: 0, N: 6},
 			gsim.Step{Op: "fetch", Member: 0, N: 8}, gsim.Step{Op: "commit", Member: 0, Pick: 7, UpTo: true, Mix: true},
 			gsim.Step{Op: "fetch", Member: 0, N: 4}, gsim.Step{Op: "commit", Member: 0, Pick: 3, UpTo: true, Mix: true})
+	}
+	abandonStratum := !mixStratum && rapid.IntRange(0, 7).Draw(t, "abandonStratum") == 0
+	if abandonStratum {
+		// A synchronous CommitMessages gives up (its context ends) while its commit is still in flight at a slow coordinator;
+		// the commit completes later.  The next CommitMessages is refused by the coordinator on every attempt: it must not
+		// return nil.
+		c.CommitIntervalMs[0] = 0
+		slow := int16(rapid.SampledFrom([]int{120, 250}).Draw(t, "slowMs"))
+		c.Faults = append(c.Faults, gsim.Fault{API: "commit", Nth: 0, Kind: "slow", Code: slow})
+		for nth := 1; nth <= 4; nth++ {
+			c.Faults = append(c.Faults, gsim.Fault{API: "commit", Nth: nth, Kind: "code", Code: rapid.SampledFrom([]int16{27, 22, 25}).Draw(t, "refuse")})
+		}
+		c.Steps = append(c.Steps, gsim.Step{Op: "append", Topic: 0, Part: 0, N: 8},
+			gsim.Step{Op: "fetch", Member: 0, N: 3}, gsim.Step{Op: "commit", Member: 0, Pick: 2, UpTo: true, TimeoutMs: rapid.SampledFrom([]int{10, 40}).Draw(t, "giveUpMs")},
+			gsim.Step{Op: "sleep", N: int(slow) + 100},
+			gsim.Step{Op: "fetch", Member: 0, N: 2}, gsim.Step{Op: "commit", Member: 0, Pick: 1, UpTo: true})
 	}
 	joined := map[int]bool{0: true}
 	n := rapid.IntRange(3, 28).Draw(t, "steps")
